@@ -818,6 +818,22 @@ theorem self_connect_refused (g : Bytes) (v : Nat) (denied : Bool) (history late
     omega
   · simp
 
+/-- **the self check looks at the nonce ring only**: the verdict of `accept` does not depend on any
+address — not on the sender / receiver addresses the `Hand` carries (nor, the decision having no such
+parameter at all, on the local / peer address of the socket): a node that reaches itself over a socket
+whose peer IP differs from its local IP (multi-homed host, wildcard listener, NAT hairpin) is refused
+like on 127.0.0.1, and another node behind the same address pair is not -/
+theorem self_check_ignores_addresses (g : Bytes) (v : Nat) (ring : List Nat) (denied : Bool) (h : Hand)
+    (a b : PeerAddr) :
+    acceptDecision g v ring denied { h with senderAddr := a, receiverAddr := b } = acceptDecision g v ring denied h ∧
+    (h.genesis = g → h.nonce ∈ ring →
+      acceptDecision g v ring denied { h with senderAddr := a, receiverAddr := b } = .error .peerWithSelf) ∧
+    (h.genesis = g → h.nonce ∉ ring →
+      acceptDecision g v ring false { h with senderAddr := a, receiverAddr := b } = .ok (min v h.version)) := by
+  refine ⟨rfl, fun hg hn => ?_, fun hg hn => ?_⟩
+  · exact accept_own_nonce g v ring denied _ hg hn
+  · exact accept_ok g v ring _ hg hn
+
 /-- what the code does with a nonce that is `NONCES_CAP − 1` or more attempts old: it is forgotten, a
 `Hand` replaying it is accepted (the property only speaks about a connection to itself made *now*) -/
 theorem evicted_nonce_not_detected (g : Bytes) (v : Nat) (history later : List Nat) (n : Nat)
